@@ -38,6 +38,7 @@ type flowParams struct {
 	Retries  int      `json:"max_retries"`
 	Procs    []procParam `json:"procs"`
 	GateDestOpen bool    `json:"gate_dest_open"` // destination Open calls are pending events with answers {ok, err}
+	NoMatch      []int   `json:"no_match"`       // records that do not match the processors' condition (Cond: "match")
 }
 
 // procParam describes one scripted processor of the scenario.
@@ -77,6 +78,9 @@ func (p flowParams) name() string {
 	}
 	for _, pr := range p.Procs {
 		n += fmt.Sprintf("/proc=%s@%s.w%d.g%v.%s", pr.ID, pr.Parent, pr.Workers, pr.Gate, strings.Join(pr.Kinds, ""))
+		if pr.Cond != "" {
+			n += fmt.Sprintf(".cond%v", p.NoMatch)
+		}
 		if len(pr.Menu) > 0 {
 			n += "." + strings.Join(pr.Menu, ",")
 		}
@@ -95,7 +99,7 @@ func (p flowParams) topology() stack.Topology {
 			}
 			batches = append(batches, b)
 		}
-		t.Sources = append(t.Sources, fakes.SourceScript{Name: fmt.Sprintf("s%d", s), Batches: batches, ReadMenu: p.ReadMenu})
+		t.Sources = append(t.Sources, fakes.SourceScript{Name: fmt.Sprintf("s%d", s), Batches: batches, ReadMenu: p.ReadMenu, NoMatch: p.NoMatch})
 	}
 	for d := 0; d < p.Dests; d++ {
 		t.Dests = append(t.Dests, fakes.DestScript{Name: fmt.Sprintf("d%d", d), AckMenu: p.AckMenu, GateOpen: p.GateDestOpen, Faults: p.GateDestOpen})
@@ -107,7 +111,11 @@ func (p flowParams) topology() stack.Topology {
 	t.DLQ = &fakes.DestScript{Name: "dlq", AckMenu: dlqMenu}
 	t.DLQWindow, t.DLQThreshold = p.Window, p.Thresh
 	for _, pr := range p.Procs {
-		t.Procs = append(t.Procs, stack.ProcSpec{ID: pr.ID, Plugin: pr.ID, Parent: pr.Parent, Workers: pr.Workers, Condition: pr.Cond})
+		cond := pr.Cond
+		if cond == "match" {
+			cond = fakes.MatchCondition
+		}
+		t.Procs = append(t.Procs, stack.ProcSpec{ID: pr.ID, Plugin: pr.ID, Parent: pr.Parent, Workers: pr.Workers, Condition: cond})
 	}
 	return t
 }
